@@ -18,7 +18,7 @@ import (
 
 func TestC09Histories(t *testing.T) {
 	rec := evid.New(t, "C09", "state-machine histories of 20..700 operations on a message writer (streamwriter.Writer, frame.Writer.WriteMessage, or the same through NewWriter / frame.ReadWriter / NewReadWriter): decoded messages, raw messages with an in-dialect id, and refused writes (nil, id outside the dialect, id>255 on v1) interleaved; the output is parsed by the reference: i-th emitted frame has seq i mod 256, configured ids, version marker, flags, reference checksum, v1 payload = base size; refused writes emit nothing and consume no sequence number; non-trivial = more than 256 emitted frames with >=2 message kinds, or a refused write between two accepted ones; distinct by hash of the emitted stream")
-	rec.Require("wraps-256", "refused-between-accepted", "v1", "v2", "signed", "streamwriter", "framewriter", "raw-in-dialect", "id>=65536", "other-writer-form", "raw-v2-payload-ending-in-zero")
+	rec.Require("wraps-256", "refused-between-accepted", "v1", "v2", "signed", "streamwriter", "framewriter", "raw-in-dialect", "id>=65536", "other-writer-form", "raw-v2-payload-ending-in-zero", "forwarded-frames-between-originated-ones")
 	dpool := pool(t)
 	evid.Check(t, rec, evid.N(2500, 8000), func(t *rapid.T) {
 		readBufSize = 512
@@ -36,6 +36,7 @@ func TestC09Histories(t *testing.T) {
 		useStream := wkind == "streamwriter"
 		w := &recWriter{}
 		var write func(message.Message) error
+		var forward func(frame.Frame) error // the same link also carries frames that are merely passed on
 		fver := frame.V1
 		if v2 {
 			fver = frame.V2
@@ -46,19 +47,19 @@ func TestC09Histories(t *testing.T) {
 			if err != nil {
 				t.Fatalf("BROKEN: %v", err)
 			}
-			write = fw.WriteMessage
+			write, forward = fw.WriteMessage, fw.WriteFrame
 		case wkind == "frame.ReadWriter":
 			rw := &frame.ReadWriter{ByteReadWriter: rwPair{bytes.NewReader(nil), w}, DialectRW: di.rw, OutVersion: fver, OutSystemID: sys, OutComponentID: comp, OutSignatureLinkID: link, OutKey: keyOf(key)}
 			if err := rw.Initialize(); err != nil {
 				t.Fatalf("BROKEN: %v", err)
 			}
-			write = rw.WriteMessage
+			write, forward = rw.WriteMessage, rw.WriteFrame
 		case wkind == "NewReadWriter":
 			rw, err := frame.NewReadWriter(frame.ReadWriterConf{ReadWriter: rwPair{bytes.NewReader(nil), w}, DialectRW: di.rw, OutVersion: fver, OutSystemID: sys, OutComponentID: comp, OutSignatureLinkID: link, OutKey: keyOf(key)}) //nolint:staticcheck
 			if err != nil {
 				t.Fatalf("BROKEN: %v", err)
 			}
-			write = rw.WriteMessage
+			write, forward = rw.WriteMessage, rw.WriteFrame
 		}
 		if write != nil {
 			// built above
@@ -74,7 +75,7 @@ func TestC09Histories(t *testing.T) {
 			if err := sw.Initialize(); err != nil {
 				t.Fatalf("Initialize refused a valid configuration (v2=%v sys=%d key=%v): %v", v2, sys, key != nil, err)
 			}
-			write = sw.Write
+			write, forward = sw.Write, fw.WriteFrame
 		} else {
 			fw := &frame.Writer{ByteWriter: w, DialectRW: di.rw, OutVersion: frame.V1, OutSystemID: sys, OutComponentID: comp, OutSignatureLinkID: link, OutKey: keyOf(key)}
 			if v2 {
@@ -83,7 +84,7 @@ func TestC09Histories(t *testing.T) {
 			if err := fw.Initialize(); err != nil {
 				t.Fatalf("BROKEN: %v", err)
 			}
-			write = fw.WriteMessage
+			write, forward = fw.WriteMessage, fw.WriteFrame
 		}
 		wantComp := comp
 		if comp == 0 {
@@ -100,11 +101,27 @@ func TestC09Histories(t *testing.T) {
 		var expect []struct {
 			lay *ref.Layout
 			pay []byte
+			fwd []byte // a forwarded frame: these bytes, and no sequence number of the link's own
 		}
+		forwarded := 0
 		for i := 0; i < nops; i++ {
-			op := rapid.SampledFrom([]string{"msg", "msg", "msg", "msg", "raw", "nil", "outside", "big-id-v1"}).Draw(t, "op")
+			op := rapid.SampledFrom([]string{"msg", "msg", "msg", "msg", "raw", "nil", "outside", "big-id-v1", "forward"}).Draw(t, "op")
 			ncalls := len(w.calls)
 			switch op {
+			case "forward":
+				ff := gen.RawFrame(t, gen.FrameOpts{})
+				if err := forward(gen.ToLib(ff)); err != nil {
+					t.Fatalf("op %d: forwarding a well-formed frame failed: %v", i, err)
+				}
+				if len(w.calls) != ncalls+1 {
+					t.Fatalf("op %d: %d transport writes for one forwarded frame", i, len(w.calls)-ncalls)
+				}
+				expect = append(expect, struct {
+					lay *ref.Layout
+					pay []byte
+					fwd []byte
+				}{nil, nil, ff.Bytes()})
+				forwarded++
 			case "msg", "raw":
 				var id uint32
 				for {
@@ -142,7 +159,8 @@ func TestC09Histories(t *testing.T) {
 				expect = append(expect, struct {
 					lay *ref.Layout
 					pay []byte
-				}{lay, pay})
+					fwd []byte
+				}{lay, pay, nil})
 				if pendingRefused && emitted > 0 {
 					refusedBetween = true
 				}
@@ -194,23 +212,32 @@ func TestC09Histories(t *testing.T) {
 			}
 		}
 		// parse the link's byte stream
-		if len(w.calls) != emitted {
-			t.Fatalf("%d frames emitted, %d accepted writes", len(w.calls), emitted)
+		if len(w.calls) != emitted+forwarded {
+			t.Fatalf("%d frames emitted, %d accepted writes and %d forwarded frames", len(w.calls), emitted, forwarded)
 		}
+		own := 0 // frames originated on this link so far
 		for i, b := range w.calls {
 			p, n, err := ref.Parse(b)
 			if err != nil || n != len(b) {
 				t.Fatalf("emitted frame %d does not parse: %x", i, b)
 			}
 			e := expect[i]
+			if e.fwd != nil {
+				if !bytes.Equal(b, e.fwd) {
+					evid.ReplayNote("C09", "TestC09Histories", fmt.Sprintf("forwarded frame %d: %x, submitted %x", i, b, e.fwd))
+					t.Fatalf("forwarded frame %d went out as %x, it was submitted as %x", i, b, e.fwd)
+				}
+				continue
+			}
 			fail := func(format string, a ...interface{}) {
 				msg := fmt.Sprintf(format, a...)
 				evid.ReplayNote("C09", "TestC09Histories", fmt.Sprintf("frame %d: %x\n%s", i, b, msg))
 				t.Fatalf("emitted frame %d (%s) %x: %s", i, e.lay.MsgName, b, msg)
 			}
-			if p.Seq != byte(i) {
-				fail("sequence number %d, want %d (emission order, no gap or repeat)", p.Seq, byte(i))
+			if p.Seq != byte(own) {
+				fail("sequence number %d, the link's %d-th originated frame must carry %d (frames merely forwarded over the same writer do not count)", p.Seq, own, byte(own))
 			}
+			own++
 			if p.V2 != v2 {
 				fail("version marker v2=%v, configured v2=%v", p.V2, v2)
 			}
@@ -266,6 +293,9 @@ func TestC09Histories(t *testing.T) {
 		}
 		if rawZeroEnd {
 			cls = append(cls, "raw-v2-payload-ending-in-zero")
+		}
+		if forwarded > 0 && emitted > 2 {
+			cls = append(cls, "forwarded-frames-between-originated-ones")
 		}
 		if rawUsed {
 			cls = append(cls, "raw-in-dialect")
